@@ -2,7 +2,7 @@
 # tools/keep_seed.sh <prop> <k> : verify the seeded change in its scratch worktree, run the quick check
 # against it in /repo (apply -> check -> undo), and record it under /verif/seeded/<prop>-<k>/
 set -u
-P="$1"; K="$2"; WT=/tmp/wt_$P; ID="$P-$K"; OUT=/verif/seeded/$ID
+P="$1"; K="$2"; WT=${WTROOT:-/tmp/wt_}$P; ID="$P-${ROUND:-}$K"; OUT=/verif/seeded/$ID
 mkdir -p "$OUT"
 cp "$WT/seeded/$K/patch.diff" "$OUT/patch.diff"
 cp "$WT/seeded/$K/demo.rs" "$OUT/demo.rs"
@@ -19,8 +19,8 @@ keys=re.findall(r'^\s+([a-z_]+\|[^\n(]+?) \(observed',det,re.M)
 meta={"id":f"{p}-{k}","breaks_property":p,"origin":"written by an independent sub-agent that saw only the property text and a scratch worktree",
  "needs_to_manifest": notes[:1800],
  "confirmed_in_scratch_worktree": ver,
- "ran":[f"tools/verify_seed.sh /tmp/wt_{p} {k}  (apply; cargo test --workspace --offline; demo as tests/demo.rs; revert; demo again)",
-        f"tools/try_patch.sh seeded/{p}-{k}/patch.diff {p}  (git -C /repo apply; ./check {p} --tier quick; git -C /repo checkout -- .)"],
+ "ran":[f"tools/verify_seed.sh <scratch worktree of {p}> {k}  (apply; cargo test --workspace --offline; demo as tests/demo.rs; revert; demo again)",
+        f"tools/try_patch.sh seeded/<id>/patch.diff {p}  (git -C /repo apply; ./check {p} --tier quick; git -C /repo checkout -- .)"],
  "quick_check_exit": int(m.group(1)) if m else None,
  "detected_by": [f"./check {p} --tier quick"] if m and m.group(1)=='1' else [],
  "violation_keys": keys[:4],
